@@ -59,7 +59,10 @@ def _proj_c07(ev, o):
 
 _MODELS = [
     dict(name="keyed", pkg="./keyedx", test="TestKeyed", coq_mod="Keyed.Spec", run_check="run_check_keyed",
-         corpus="keyed", project={"C06": _proj_c06, "C07": _proj_c07}, quick_n=1500, thorough_n=150000, nontrivial=nt_len(10), rule=_RULE),
+         corpus="keyed", project={"C06": _proj_c06, "C07": _proj_c07}, quick_n=1500, thorough_n=150000, nontrivial=nt_len(10), rule=_RULE,
+         # the same correspondence in the free-running regime (real scheduler), in every check: oracles = invariants proved of the
+         # model (one live instance per key that stays in the set; a referenced key is present): harness/keyedx/free_test.go
+         free_search=dict(test="TestKeyedFree", props={"C06": [6], "C07": [5]}), free_always=True),
 ]
 _TRUSTED = SCHED_TRUSTED + [
     "modelled, not verified: time.AfterFunc/Stop (armed/fired/stopped/ran), context.WithCancel (an instance's context is cancelled by its cancel function or, synchronously, with the root context it was derived from; it is born cancelled under a cancelled root), the scripted back-off built by the WithBackoff factory (one per record), the constructor callback (data = key*1000 + construction count; a routine or, as the history prescribes with event 22, a nil Routine)",
